@@ -4,7 +4,7 @@
     what the implementation returned, the conclusion below — the statement of C01 for that
     input — holds over the reals. *)
 From Coq Require Import QArith Qreals Reals List.
-From D3 Require Import Base.Ops Base.Vec Base.RVec Spec.Convex Checker.Shapes Checker.Narrow Model.Simplex Model.JoltLoop Proofs.JoltLoop.
+From D3 Require Import Base.Ops Base.Vec Base.RVec Spec.Convex Checker.Shapes Checker.Narrow Model.Simplex Model.JoltLoop Proofs.JoltLoop Proofs.JoltStall.
 Import ListNotations.
 
 (** the support-value bound every separation certificate rests on *)
@@ -86,6 +86,35 @@ Theorem C01_gap_bound_partial : forall (A B : set3) d p q a b,
   (- dot d (vsub p q) <= norm d * norm (vsub a b))%R.
 Proof. exact support_lower_bound. Qed.
 
+(** the two classical GJK lemmas: a support point that is not farther along -v than v makes |v| a
+    lower bound; otherwise the segment [v, w] contains a strictly shorter point *)
+Theorem C01_stall_lower_bound : forall (A B : set3) (v p q : V3R),
+  is_support A (vneg v) p -> is_support B (vneg (vneg v)) q ->
+  (dot v v <= dot v (vsub p q))%R ->
+  forall a b, A a -> B b -> (norm v <= norm (vsub a b))%R.
+Proof. exact gjk_stall_lower_bound. Qed.
+
+Theorem C01_progress_possible : forall v w : V3R,
+  (dot v w < dot v v)%R ->
+  exists t, (0 < t <= 1)%R /\
+    (dot (vadd (vscale (1 - t) v) (vscale t w)) (vadd (vscale (1 - t) v) (vscale t w)) < dot v v)%R.
+Proof. exact gjk_progress_possible. Qed.
+
+(** the "no improvement" exit of the loop model reports the EXACT distance - partial: under the
+    two hypotheses about the simplex solver that C18 is about (its result is a minimum-norm point
+    of the hull of the rows it was given; the current closest point lies in the hull of the
+    current rows), which are proved there for the line and triangle arms and lattice-exhaustively
+    for the tetrahedron, and are not discharged here *)
+Theorem C01_exact_on_stall_partial : forall (A B : set3) (p q : V3R) (s : @dstate R),
+  srows A B s -> dinv s -> prev_v_len_sq s = v_len_sq s ->
+  is_support A (search_direction s) p -> is_support B (vneg (search_direction s)) q ->
+  conv_hull (Ys s) (vneg (search_direction s)) ->
+  (forall v' sx prev', get_closest_point_to_origin (Ys s ++ [vsub p q]) (length (Ys s ++ [vsub p q])) prev'
+                       = GcpOk v' (dot v' v') sx -> min_norm_in_hull (Ys s ++ [vsub p q]) v') ->
+  get_closest_point_to_origin (Ys s ++ [vsub p q]) (length (Ys s ++ [vsub p q])) (prev_v_len_sq s) = GcpFail ->
+  forall a b, A a -> B b -> (norm (search_direction s) <= norm (vsub a b))%R.
+Proof. exact distance_step_stall_exact_partial. Qed.
+
 Example C01_loop_nonvacuous : srows (fun _ => True) (fun _ => True) (@dstate0 R ROps) /\ dinv (@dstate0 R ROps).
 Proof. split; [apply srows0 | apply dinv0]. Qed.
 
@@ -100,3 +129,6 @@ Print Assumptions C01_clipped_exit_sound.
 Print Assumptions C01_closest_points_difference_partial.
 Print Assumptions C01_loop_nonvacuous.
 Print Assumptions C01_gap_bound_partial.
+Print Assumptions C01_stall_lower_bound.
+Print Assumptions C01_progress_possible.
+Print Assumptions C01_exact_on_stall_partial.
